@@ -148,6 +148,10 @@ def facts(snap, F):
     F.try_add("winBroadcastAssigned", "Bool", lambda: lean_bool(T.broadcast_assigned(tree("__init__.py"))),
               "net_if_addrs(): is the result of nt._replace(broadcast=...) assigned back to nt?")
 
+    F.try_add("frontBranches", "List (String × String)",
+              lambda: lean_list(T.front_branches(tree("__init__.py")), lambda q: T.lpair(lean_str(q[0]), lean_str(q[1]))),
+              "every `if` / conditional expression inside a function or class body of psutil/__init__.py whose test names a platform constant: (where, test), source order")
+
     F.try_add("sunosPid0AdNamed", "Bool", lambda: lean_bool(T.sunos_pid0_named(tree("_pssunos.py"))),
               "_pssunos._proc_basic_info: `raise AccessDenied(self.pid, self._name)` (true) or without the name (false) for an unreadable PID 0")
 
@@ -740,6 +744,202 @@ def front_end_pass(emu, res):
     return n
 
 
+# ---- the other platform-conditional branches of the front end (ppid / name caching, username, pid_exists(0),
+# ---- cpu_affinity([]), disk_io_counters kwargs): the REAL __init__.py imported as each platform, over a scripted
+# ---- platform-layer object (`_proc`) so that the native answer can change between two calls
+
+
+class FakeProc:
+    """stands in for `_psplatform.Process(pid)` behind a front-end Process"""
+
+    def __init__(self, **answers):
+        self.pid, self._name, self._ppid = 42, None, None
+        self.answers = answers
+        self.got = {}
+
+    def __getattr__(self, n):
+        if n.startswith("__") or n not in self.answers:
+            raise AttributeError(n)
+        a = self.answers[n]
+
+        def f(*args, **kw):
+            self.got[n] = [args, kw]
+            if isinstance(a, BaseException):
+                raise a
+            return a
+        return f
+
+
+class FakePwd:
+    def __init__(self, table):
+        self.table = table
+
+    def getpwuid(self, uid):
+        if uid not in self.table:
+            raise KeyError("getpwuid(): uid not found: %s" % uid)
+        import types as _t
+        return _t.SimpleNamespace(pw_name=self.table[uid])
+
+
+LONG15 = "gnome-keyring-d"
+
+
+def front_cases(emu):
+    posix = not emu.windows
+    base = {"kind": "front2", "ident": emu.ident, "windows": emu.windows, "posix": posix}
+    for cached in (None, 7):
+        for native in (9, 0):
+            yield dict(base, fn="ppid", cached=cached, native=native)
+    names = [("c20proc", ["/usr/bin/c20proc"]), (LONG15, ["/usr/bin/gnome-keyring-daemon", "--start"]), (LONG15, []),
+             (LONG15, ["/usr/bin/other-daemon"]), (LONG15, "AccessDenied"), (LONG15, "ZombieProcess"),
+             (LONG15 + "x", ["rel/" + LONG15 + "xyz"]), (LONG15[:14], ["/usr/bin/gnome-keyring-daemon"])]
+    for cached in (None, "oldname"):
+        for native, argv in names:
+            yield dict(base, fn="name", cached=cached, native=native, argv=argv)
+    for uid, pw in ((1101, "alice"), (1102, None)):
+        yield dict(base, fn="username", uid=uid, pw=pw, native="DOM\\user")
+    for pid in (-1, 0, 5):
+        for listed in (True, False):
+            for native in ((True, False) if emu.windows else (True,)):
+                yield dict(base, fn="pid_exists", pid=pid, listed=listed, native=native)
+    if hasattr(emu.pkg.Process, "cpu_affinity"):
+        for cpus in ([], [1], [1, 1, 0]):
+            yield dict(base, fn="affinity", ncpu=2, cpus=cpus)
+    for perdisk in (False, True):
+        yield dict(base, fn="disk", perdisk=perdisk)
+
+
+def _disk_rows(emu):
+    nt = getattr(emu.mod, "sdiskio", emu.common.sdiskio)
+    w = len(nt._fields)
+    return nt, [[100 * (d + 1) + i for i in range(w)] for d in range(2)]
+
+
+def run_front(emu, c):
+    """→ (observable, driver line)"""
+    pkg, common = emu.pkg, emu.common
+    fn = c["fn"]
+    line = {"op": "front", "fn": fn, "windows": c["windows"], "posix": c["posix"]}
+
+    def proc(fp, **attrs):
+        p = pkg.Process(42)
+        p._proc = fp
+        for k, v in attrs.items():
+            setattr(p, k, v)
+        return p
+    if fn == "ppid":
+        def call():
+            p = proc(FakeProc(ppid=c["native"]), _ppid=c["cached"])
+            return [p.ppid(), p._ppid]
+        obs, _ = emu.call(call)
+        line.update(cached=c["cached"], native=c["native"])
+        return obs, line
+    if fn == "name":
+        argv = c["argv"]
+        cm = argv
+        if argv == "AccessDenied":
+            cm = common.AccessDenied(42)
+        elif argv == "ZombieProcess":
+            cm = common.ZombieProcess(42)
+
+        def call():
+            fp = FakeProc(name=c["native"], cmdline=cm)
+            p = proc(fp, _name=c["cached"])
+            r = p.name()
+            return [r, p._name, fp._name]
+        obs, _ = emu.call(call)
+        line.update(cached=c["cached"], native=c["native"], argv=argv if isinstance(argv, list) else None)
+        return obs, line
+    if fn == "username":
+        saved = getattr(pkg, "pwd", None)
+
+        def call():
+            fp = FakeProc(uids=common.puids(c["uid"], 1, 2), username=c["native"])
+            return proc(fp).username()
+        try:
+            if c["posix"]:
+                pkg.pwd = FakePwd({c["uid"]: c["pw"]} if c["pw"] else {})
+            obs, _ = emu.call(call)
+        finally:
+            pkg.pwd = saved
+        line.update(uid=c["uid"], pw=c["pw"], native=c["native"])
+        return obs, line
+    if fn == "pid_exists":
+        w = E.World(emu, pid=42, pid0_listed=c["listed"],
+                    overrides=({"pid_exists": lambda w_, pid: c["native"]} if emu.windows else {}))
+        obs, _ = emu.call(lambda: [pkg.pid_exists(c["pid"]), pkg.pids()], world=w)
+        pids = obs["value"][1] if obs["kind"] == "value" else []
+        if obs["kind"] == "value":
+            obs = {"kind": "value", "value": obs["value"][0]}
+        line.update(pid=c["pid"], pids=pids, native=c["native"])
+        return obs, line
+    if fn == "affinity":
+        def call():
+            fp = FakeProc(cpu_affinity_set=None, cpu_affinity_get=[0, 1])
+            proc(fp).cpu_affinity(c["cpus"])
+            return sorted(fp.got["cpu_affinity_set"][0][0])
+        obs, _ = emu.call(call)
+        line.update(ncpu=c["ncpu"], cpus=c["cpus"])
+        return obs, line
+    if fn == "disk":
+        nt, rows = _disk_rows(emu)
+        got = {}
+
+        def native(w_, *a, **kw):
+            got["args"] = [list(a), sorted(kw)]
+            return {"d%d" % i: tuple(r) for i, r in enumerate(rows)}
+        w = E.World(emu, overrides={"disk_io_counters": native})
+
+        def call():
+            pkg.disk_io_counters.cache_clear()
+            r = pkg.disk_io_counters(perdisk=c["perdisk"])
+            names = sorted(k for k in common.wrap_numbers.cache_info()[0])
+            return [r, names, got.get("args")]
+        obs, _ = emu.call(call, world=w)
+        line.update(perdisk=c["perdisk"], rows=rows)
+        return obs, line
+    raise InfraError("unknown front case %r" % (c,))
+
+
+def front_expect(emu, c, side):
+    """what the driver's `model` / `spec` answer means for the observable of run_front"""
+    fn = c["fn"]
+    if fn == "ppid":
+        if "cache" in side:
+            return [side["ret"], side["cache"]]
+        return [side["ret"], None]        # the documentation does not speak about the cache slot
+    if fn == "name":
+        # the name is also handed down to the platform object (for its error messages) unless the cache answered
+        early = c["windows"] and c["cached"] is not None
+        return [side["ret"], side["ret"], None if early else side["ret"]]
+    if fn in ("username", "pid_exists", "affinity"):
+        return side["ret"]
+    if fn == "disk":
+        nt, rows = _disk_rows(emu)
+        if c["perdisk"]:
+            val = {"dict": sorted([["d%d" % i, {"nt": nt.__name__, "fields": [[f, v] for f, v in zip(nt._fields, r)]}]
+                                   for i, r in enumerate(rows)], key=repr)}
+        else:
+            val = {"nt": nt.__name__, "fields": [[f, v] for f, v in zip(nt._fields, side["total"])]}
+        return [val, [side["cache"]], [[], side["kwargs"]]]
+    return None
+
+
+def judge_front(emu, c, obs, m, res):
+    if "bad" in m:
+        raise InfraError("driver rejected front query: %s" % m)
+    for which in ("spec", "model"):
+        want = front_expect(emu, c, m[which])
+        got = obs.get("value") if obs["kind"] == "value" else obs
+        if c["fn"] == "ppid" and which == "spec" and isinstance(got, list):
+            got = [got[0], None]
+        if got != want:
+            res.disagree(which, c, obs, front_expect(emu, c, m["model"]), front_expect(emu, c, m["spec"]),
+                         note="%s front end %s(): result differs from the %s" % (emu.ident, c["fn"], which))
+            return True
+    return False
+
+
 # ------------------------------------------------------------------------------ correspondence
 
 
@@ -849,6 +1049,19 @@ def correspond(ctx, res):
                      nontrivial=(c["fam"] == "link" or (emu.windows and c["plen"] is not None)),
                      sample={"case": c, "impl": impl} if (ident == "windows" and c["plen"] == 24 and c["ip"] == 0xC0A8010A) else None)
             judge_netif(emu, c, impl, m, res)
+    # ---------------- the other platform-conditional branches of the front end
+    for ident in E.IDENTS:
+        emu = emus[ident]
+        fcs = list(front_cases(emu))
+        ran = [run_front(emu, c) for c in fcs]
+        outs = ctx.driver().batch([ln for _, ln in ran])
+        drv_lines += len(fcs)
+        for c, (obs, _), m in zip(fcs, ran, outs):
+            res.count("family:front-branches")
+            res.count("front:" + c["fn"])
+            res.case(("front2", ident) + tuple(sorted((k, str(v)) for k, v in c.items())), nontrivial=True,
+                     sample={"case": c, "impl": obs, "model": m.get("model")} if (ident, c["fn"], c.get("cached")) == ("windows", "name", "oldname") and c["native"] == "c20proc" else None)
+            judge_front(emu, c, obs, m, res)
     # ---------------- documented API
     outs = ctx.driver().batch([{"op": "api", "plat": i} for i in E.IDENTS])
     drv_lines += len(E.IDENTS)
@@ -894,6 +1107,10 @@ def _rerun(ctx, inp, res):
         m = ctx.driver().batch([{"op": "api", "plat": inp["ident"]}])[0]
         live = T.exposed_api(emu, {"x": m["documented"]})
         return inp.get("name") in m["documented"] and inp.get("name") not in live
+    if kind == "front2":
+        obs, ln = run_front(emu, inp)
+        m = ctx.driver().batch([ln])[0]
+        return judge_front(emu, inp, obs, m, res) and res.disagreements[-1]["kind"] == "spec"
     if kind == "front":
         n0 = len(res.disagreements)
         front_end_pass(emu, res)
